@@ -238,6 +238,7 @@ def check(run, model, tier):
         if isinstance(inner, ast.Call) and isinstance(inner.func, ast.Attribute) and dotted(inner.func.value) == get.params[0] and inner.func.attr in cls.methods:
             rels = lock_nodes(gg, get.params[0], lock, 'release')
             from sa.util import guarded_by_edge as _gbe
+            rels = [r for r in rels if gg.exists_path(t, r)]
             if rels and (all(_gbe(gg, r, t, 'true') for r in rels) or all(_gbe(gg, r, t, 'false') for r in rels)):
                 classifier = cls.methods[inner.func.attr]
     if classifier is None:
